@@ -60,7 +60,7 @@ def write_tree(d, path):
         links = "\n\n".join(("![%s](%s)" if lab.startswith("I") else "[%s](%s)") % (lab, url) for lab, url, _ in d["readme"]["links"])
         (path / d["readme"]["file"]).write_text("# %s\n\nhello\n\n%s\n" % (d["readme"]["title"], links))
     for r in d["recipes"]:
-        (path / r["file"]).write_text(recipe_text(r))
+        (path / r["file"]).write_text(r["raw"] if r.get("raw") is not None else recipe_text(r))
     for a in d["assets"]:
         (path / a["file"]).write_bytes(a["data"])
     for s in d["subdirs"]:
